@@ -235,6 +235,7 @@ def main(argv=None):
                     samples.append(dict(function=name, instance=inst, clause=ob['name'], backend=ob['backend'],
                                         smt_size=ob.get('size', 0), result='discharged', paths=r.get('paths')))
             elif ob['status'] == 'refuted':
+                ob['job_kind'] = kind
                 refuted.append((modname, i, name, inst, ob))
             else:
                 unknown.append((name, inst, ob))
@@ -342,7 +343,7 @@ def write_replay(prop, modname, i, name, inst, ob, mutant):
     h = abs(hash((name, json.dumps(inst, sort_keys=True), ob['name']))) % 10**8
     rp = os.path.join(ROOT, 'replays', f'{prop}_{name}_{h}.json')
     with open(rp, 'w') as f:
-        json.dump(dict(property=prop, contract=name, module=modname, index=i, inst=inst, obligation=ob['name'],
+        json.dump(dict(property=prop, contract=name, module=modname, index=i, inst=inst, obligation=ob['name'], job_kind=ob.get('job_kind'),
                        failed_obligation=f'{prop}.{name}.{ob["name"]}', model=ob.get('model'), backend=ob['backend'],
                        clause=ob.get('clause'), info=ob.get('info'), path_decisions=ob.get('decisions'),
                        solver_output=f"{ob['backend']}: sat (pc /\\ not clause), {ob['seconds']}s", mutant=mutant),
@@ -355,6 +356,10 @@ def try_replay(modname, i, inst, ob, seed):
     from vc.native import run_native
 
     mod = importlib.import_module(modname)
+    if ob.get('job_kind') == 'extra':
+        if ob.get('kind') == 'bounded':
+            return dict(confirmed=True, how='bounded enumeration ran the real code on concrete inputs', inputs=ob.get('model'))
+        return dict(confirmed=False, how='lemma over specification functions: no native twin')
     C = mod.CONTRACTS[i] if i < len(getattr(mod, 'CONTRACTS', [])) else None
     if C is None or not getattr(C, 'native', True) or ob.get('kind') == 'lemma':
         return dict(confirmed=False, how='no native twin for this obligation')
@@ -375,9 +380,15 @@ def replay_file(path):
     d = json.load(open(path))
     prop, name = d['property'], d['contract']
     mod = importlib.import_module(d['module'])
-    if d['index'] >= len(getattr(mod, 'CONTRACTS', [])):
-        print('replay: no native twin (lemma / extra)')
-        return 2
+    if d.get('job_kind') == 'extra' or d['index'] >= len(getattr(mod, 'CONTRACTS', [])):
+        f = mod.EXTRAS[d['index']]
+        r = f('quick', 0)
+        bad = [o for o in r['obligations'] if o['status'] == 'refuted']
+        print(f"replay {prop}.{name}: re-ran {f.__name__}: {len(bad)} failing")
+        if bad:
+            print(f'VIOLATION property={prop} replay={path}')
+            return 1
+        return 0
     c = mod.CONTRACTS[d['index']]()
     from vc.native import run_native
 
